@@ -115,7 +115,16 @@ type Opts struct {
 	Entry, File                           string
 }
 
+// InitKV is one InitState option: a Cloner cell (Items) or a plain int (Imm)
+type InitKV struct {
+	Key   string
+	Cell  bool
+	Items []int
+	Imm   int
+}
+
 type Case struct {
+	Init   []InitKV // InitState options (state templates only)
 	ID     string
 	Tmpl   Tmpl
 	Opts   Opts
@@ -397,7 +406,23 @@ func (c *Case) Sexp() string {
 			sb.WriteString(" " + b.Sexp())
 		}
 	}
-	fmt.Fprintf(&sb, ") (input %s))", hx(string(c.Input)))
+	sb.WriteString(")")
+	if len(c.Init) > 0 {
+		sb.WriteString(" (init")
+		for _, kv := range c.Init {
+			if kv.Cell {
+				fmt.Fprintf(&sb, " (cell %s", hx(kv.Key))
+				for _, z := range kv.Items {
+					fmt.Fprintf(&sb, " %d", z)
+				}
+				sb.WriteString(")")
+			} else {
+				fmt.Fprintf(&sb, " (imm %s %d)", hx(kv.Key), kv.Imm)
+			}
+		}
+		sb.WriteString(")")
+	}
+	fmt.Fprintf(&sb, " (input %s))", hx(string(c.Input)))
 	return sb.String()
 }
 
